@@ -112,7 +112,7 @@ def damage(xml, ops):
                 new = txt[:a.start()] + ' %s=""' % a.group(1) + txt[a.end():]
                 xml = xml[:t.start()] + new + xml[t.end():]
         elif op == 'dup_id':
-            xml = re.sub(r'id="s1"', 'id="s0"', xml, count=1)
+            xml = re.sub(r'(?<![a-z])id="s1"', 'id="s0"', xml, count=1)   # never the harness's own vid="..."
         elif op == 'dangling':
             xml = re.sub(r'target="[^"]*"', 'target="nosuchstate"', xml, count=1)
         elif op == 'rename_tag':
@@ -120,7 +120,7 @@ def damage(xml, ops):
             other = ['state', 'parallel', 'final', 'history', 'transition', 'onentry', 'log', 'foo'][n % 8]
             xml = xml[:t.start()] + txt.replace('<' + name, '<' + other, 1) + xml[t.end():]
         elif op == 'huge_id':
-            xml = re.sub(r'id="s0"', 'id="%s"' % ("x" * 5000), xml, count=1)
+            xml = re.sub(r'(?<![a-z])id="s0"', 'id="%s"' % ("x" * 5000), xml, count=1)
         elif op == 'unknown_elem':
             xml = xml[:t.start()] + '<frobnicate a="1"><x/></frobnicate>' + xml[t.start():]
         elif op == 'misplaced_elem':
